@@ -120,6 +120,11 @@ Fixpoint mem_bytes (x : bytes) (l : list bytes) : bool :=
 Definition make_safe (n : N) (s : lstate) : outcome lstate :=
   if n <? max_int32 then Ok (s <| lx_allocs := n :: lx_allocs s |>) else Err ELengthOutOfRange.
 
+(* compressions whose decoder is drained (read to its end, which must yield nothing more) once the declared number of
+   bytes has been read for validation: lz4 and - since the fix for empty zstd chunks - zstd *)
+Definition drains_chunk (comp : bytes) : bool :=
+  bytes_eqb comp [x6c; x7a; x34] || bytes_eqb comp [x7a; x73; x74; x64].
+
 (* ----- loadChunk ----- *)
 (* result: None = nil (chunk reader installed), Some e = error *)
 Definition load_chunk (record_len : N) (s : lstate) : option err * lstate :=
@@ -186,8 +191,8 @@ Definition load_chunk (record_len : N) (s : lstate) : option err * lstate :=
             match e with
             | Some e => (Some e, s)
             | None =>
-              let is_lz4 := bytes_eqb comp [x6c; x7a; x34] in
-              (* lz4: io.ReadAll of the remainder must succeed and be empty *)
+              let is_lz4 := drains_chunk comp in
+              (* lz4, zstd: io.ReadAll of the remainder must succeed and be empty *)
               let extra_bad := if is_lz4 then
                                  match r_buf r1, r_end r1 with
                                  | [], None => None
